@@ -56,6 +56,19 @@ type frame struct {
 	cost   int
 }
 
+// stableLog: the execution log without the stack trace of a panic (goroutine numbers and
+// addresses differ between two runs of the same schedule).
+func stableLog(log []string) string {
+	var out []string
+	for _, l := range log {
+		if strings.HasPrefix(l, "-- panic:") {
+			l, _, _ = strings.Cut(l, "\n")
+		}
+		out = append(out, l)
+	}
+	return strings.Join(out, "\n")
+}
+
 // Explore enumerates executions of h: depth-first over choice prefixes, taking choice 0
 // beyond the prefix, expanding every alternative within the deviation bound; with Prune a
 // branch is cut when its global state key was already visited.
@@ -75,7 +88,7 @@ func Explore(h Harness, o Options) Stats {
 			return Explore(h, o)
 		}
 		b, ob, lb := runOnce(h, o, nil, nil, true)
-		if oa != ob || la != lb || strings.Join(a, "\n") != strings.Join(b, "\n") {
+		if oa != ob || la != lb || stableLog(a) != stableLog(b) {
 			fmt.Fprintf(os.Stderr, "verifmc: harness %s is not deterministic:\nrun1 (%v) %s\n%s\nrun2 (%v) %s\n%s\n", h.Name, oa, la, strings.Join(a, "\n"), ob, lb, strings.Join(b, "\n"))
 			os.Exit(2)
 		}
